@@ -98,7 +98,7 @@ theorem validate_accepts_prefix (p tail : Bytes) (hp : ∀ c ∈ p, isBase c = t
 
 /-- Whatever the fast path accepts, the slow line-by-line path accepts too, and it rebuilds
 exactly the bytes the fast path hands over (`b[:toOriginLength L]`), leaving the same rest — so
-both paths yield the same `Origin` and therefore the same residues. -/
+both paths yield the same `Origin` and therefore the same residues.  (No hypothesis on `b`.) -/
 theorem fast_imp_slow (b : Bytes) (L : Nat) (hL : L < 10 ^ 9)
     (h : validateOrigin b (L : Int) = .ok ()) :
     slowOrigin b (L : Int) =
@@ -114,43 +114,52 @@ theorem slow_token_valid (st : Bytes) (L : Nat) (out rest : Bytes) (hL : L < 10 
   obtain ⟨h1, h2⟩ := Gts.Origin.slow_token_valid st L out rest hL h
   exact ⟨by rw [h1, toOriginLength_nat], h2⟩
 
-/-- guard of K16a: the slow path dropped nothing, i.e. its token is a prefix of its input -/
-def noTrailing (b : Bytes) (L : Nat) : Bool :=
-  match slowOrigin b (L : Int) with
-  | .ok (out, _) => out == b.take out.length
-  | .error _ => true
+/-- The slow path never panics, on any input, for every declared length < 10^9 (every index
+into a line is bounds-checked; the token buffer is never overrun). -/
+theorem slow_never_panics (st : Bytes) (L : Nat) (hL : L < 10 ^ 9) :
+    slowOrigin st (L : Int) ≠ .error .panic :=
+  slowOrigin_ne_panic st L hL
 
-/-- FULL STATEMENT (false today, known finding K16a):
-      on input without CR the fast path accepts iff the slow path accepts.
-    Refuted by the LOCUS-length-1 block `        1 ab\n`: the fast path reports an error (it wants
-    the newline where `b` stands), the slow path accepts and returns the block of `a` alone —
-    every character of a line behind the declared residues is ignored. -/
-theorem fast_slow_full_refuted :
-    ¬ (∀ (b : Bytes) (L : Nat), noCR b →
-        (validateOrigin b (L : Int) = .ok () ↔ ∃ o, slowOrigin b (L : Int) = .ok o)) := by
-  intro h
-  have hw := (h [32,32,32,32,32,32,32,32,49,32,97,98,10] 1 (by decide)).mpr
-    ⟨([32,32,32,32,32,32,32,32,49,32,97,10], []), by decide⟩
-  revert hw
-  decide
+/-- "no trailing blanks": no blank stands directly before a line feed or at the very end of the
+input.  Decidable; `written_block_shape` shows that every written block satisfies it. -/
+abbrev noTrailingBlank (b : Bytes) : Prop := trailingBlank b = false
 
-/-- The fast and the slow path accept the same input — for every input and every declared
-length < 10^9 — provided the slow path did not drop characters (`noTrailing`, which excludes
-exactly the shape of K16a; it also excludes CR line ends, which only the slow path reads). -/
-theorem fast_slow_partial (b : Bytes) (L : Nat) (hL : L < 10 ^ 9) (hg : noTrailing b L = true) :
-    validateOrigin b (L : Int) = .ok () ↔ ∃ o, slowOrigin b (L : Int) = .ok o := by
-  constructor
-  · intro h; exact ⟨_, Gts.Origin.fast_imp_slow b L hL h⟩
-  · rintro ⟨⟨out, rest⟩, h⟩
-    unfold noTrailing at hg
-    rw [h] at hg
-    have e : out = b.take out.length := by simpa using hg
-    have hb : out ++ b.drop out.length = b := by
-      have := List.take_append_drop out.length b
-      rw [← e] at this; exact this
-    have := (Gts.Origin.slow_token_valid b L out rest hL h).2 (b.drop out.length)
-    rw [hb] at this
-    exact this
+/-- Every written block of printable residues is CR-free and carries no trailing blanks. -/
+theorem written_block_shape (p : Bytes) (hp : ∀ c ∈ p, isBase c = true) :
+    noCR (originStream p) ∧ noTrailingBlank (originStream p) :=
+  ⟨originStream_noCR p hp, originStream_no_trailingBlank p hp⟩
+
+/-- What the slow path accepts beyond the fast path is exactly trailing blanks: on CR-free input
+that is at least as long as the declared block (the reader's `state.Request` precondition for
+either path), if the slow path accepts then the fast path accepts or some line carries trailing
+blanks. -/
+theorem slow_imp_fast_or_blanks (b : Bytes) (L : Nat) (hL : L < 10 ^ 9) (hcr : noCR b)
+    (hlen : (toOriginLength (L : Int)).toNat ≤ b.length)
+    (h : ∃ o, slowOrigin b (L : Int) = .ok o) :
+    validateOrigin b (L : Int) = .ok () ∨ trailingBlank b = true := by
+  cases hb : trailingBlank b with
+  | true => exact Or.inr rfl
+  | false =>
+    obtain ⟨o, ho⟩ := h
+    rw [toNat_tl] at hlen
+    exact Or.inl (slow_imp_fast b L o hL hcr hb hlen ho)
+
+/-- FULL STATEMENT (holds since the repair 2c8ca02; was refuted as K16a before): on CR-free input
+without trailing blanks that is at least as long as the declared block, the fast and the slow
+path accept the same input, and then hand over the same bytes (hence the same residues). -/
+theorem fast_slow_equiv (b : Bytes) (L : Nat) (hL : L < 10 ^ 9) (hcr : noCR b)
+    (hb : noTrailingBlank b) (hlen : (toOriginLength (L : Int)).toNat ≤ b.length) :
+    (validateOrigin b (L : Int) = .ok () ↔ ∃ o, slowOrigin b (L : Int) = .ok o) ∧
+    ∀ o, slowOrigin b (L : Int) = .ok o →
+      o = (b.take (toOriginLength (L : Int)).toNat, b.drop (toOriginLength (L : Int)).toNat) := by
+  have hlen' := hlen
+  rw [toNat_tl] at hlen'
+  refine ⟨⟨fun h => ⟨_, Gts.Origin.fast_imp_slow b L hL h⟩,
+    fun ⟨o, ho⟩ => slow_imp_fast b L o hL hcr hb hlen' ho⟩, fun o ho => ?_⟩
+  have hv := slow_imp_fast b L o hL hcr hb hlen' ho
+  have := fast_imp_slow b L hL hv
+  rw [ho] at this
+  exact Except.ok.inj this
 
 /-- The line splitter used by the slow-path model is the framework's model of `pars.Line`
 (`Gts.Pars.line`, go-pars v1.1.6 `calculateLineLength`: LF, CRLF, lone CR, end of input). -/
@@ -193,15 +202,31 @@ example :
     ∧ originBytes [32,32,32,32,32,32,32,32,49,32,97,99,103,116,97,99,103,116,97,99,32,103,116,110,10]
         = .ok [97,99,103,116,97,99,103,116,97,99,103,116,110]
     ∧ validateOrigin [32,32,32,32,32,32,32,32,49,32,97,99,103,116,97,99,103,116,97,99,32,103,116,110,10] 13 = .ok ()
-    ∧ noTrailing [32,32,32,32,32,32,32,32,49,32,97,99,103,116,97,99,103,116,97,99,32,103,116,110,10] 13 = true := by
+    ∧ trailingBlank [32,32,32,32,32,32,32,32,49,32,97,99,103,116,97,99,103,116,97,99,32,103,116,110,10] = false := by
   decide
 
-/-- the witness of K16a on the whole reader: LOCUS length 1, `ORIGIN` line, `        1 ab`, `//`
-is accepted and reads as the single residue `a` -/
+/-- regression of the repaired defect F10 (was K16a): the block `        1 ab` with declared
+length 1 is rejected by both paths and by the whole reader; blanks behind the residues are still
+accepted by the slow path; a block holding more lines than declared is rejected by the reader. -/
 example :
-    originParse [79,82,73,71,73,78,32,32,32,32,32,32,10, 32,32,32,32,32,32,32,32,49,32,97,98,10, 47,47,10] 1
-      = .ok ([32,32,32,32,32,32,32,32,49,32,97,10], [47,47,10])
-    ∧ noTrailing [32,32,32,32,32,32,32,32,49,32,97,98,10, 47,47,10] 1 = false := by
+    validateOrigin [32,32,32,32,32,32,32,32,49,32,97,98,10] 1 = .error .fail
+    ∧ slowOrigin [32,32,32,32,32,32,32,32,49,32,97,98,10] 1 = .error .fail
+    ∧ originParse [79,82,73,71,73,78,32,32,32,32,32,32,10, 32,32,32,32,32,32,32,32,49,32,97,98,10, 47,47,10] 1
+        = .error .fail
+    ∧ slowOrigin [32,32,32,32,32,32,32,32,49,32,97,32,32,10, 47,47,10] 1
+        = .ok ([32,32,32,32,32,32,32,32,49,32,97,10], [47,47,10])
+    ∧ trailingBlank [32,32,32,32,32,32,32,32,49,32,97,32,32,10, 47,47,10] = true
+    ∧ originParse [79,82,73,71,73,78,32,32,32,32,32,32,10,
+        32,32,32,32,32,32,32,32,49,32,97,10, 32,32,32,32,32,32,32,32,50,32,98,10, 47,47,10] 1
+        = .error .fail := by
+  decide
+
+/-- why `fast_slow_equiv` asks for input at least as long as the block: the slow path accepts a
+last line that ends with the input, where the unchecked fast path would index past the end (the
+reader never gets there: `state.Request` fails first). -/
+example :
+    slowOrigin [32,32,32,32,32,32,32,32,49,32,97] 1 = .ok ([32,32,32,32,32,32,32,32,49,32,97,10], [])
+    ∧ validateOrigin [32,32,32,32,32,32,32,32,49,32,97] 1 = .error .panic := by
   decide
 
 end Gts.C16
